@@ -7,7 +7,8 @@ use chess_bitboard::{BitBoard, Color, File, Piece, Pos};
 #[kani::proof]
 #[kani::unwind(8)]
 fn c04_xor() {
-    let mut b = any_board();
+    // also from states that are not placements (make-move's intermediate states)
+    let mut b = any_board_loose();
     let old = b;
     let (c, p, d): (Color, Piece, BitBoard) = (kani::any(), kani::any(), kani::any());
     kani::assume(d.count() <= 2);
